@@ -276,6 +276,9 @@ func init() {
 			return IntV{in.tf.BV(64, uint64(sv.F[1].(SliceV).Len))}, true
 		},
 	}
+	if nativeModels == nil {
+		nativeModels = map[string]nativeModel{}
+	}
 	for k, v := range extra {
 		nativeModels[k] = v
 	}
